@@ -701,7 +701,11 @@ func (v *Visitor) resolveSkipArrayItem(fieldRef int, fieldName string, enclosing
 			shouldIncludeDeprecated := false
 
 			if includeDeprecatedVariableName != "" {
-				shouldIncludeDeprecated = ctx.Variables.GetBool(includeDeprecatedVariableName)
+				// the operation's variables were renamed by the variables mapper: read through the
+				// view, which translates the name back to the key of the request's variables
+				if value := ctx.VariablesView().Get(includeDeprecatedVariableName); value != nil {
+					shouldIncludeDeprecated = value.GetBool()
+				}
 			}
 
 			isDeprecated := itemValue.GetBool("isDeprecated")
